@@ -313,4 +313,259 @@ Proof.
   - cbn [mode_all] in Hx. now apply castle_sound.
 Qed.
 
+(* ---- completeness: no legal move is missing *)
+Lemma piece_in_generate s p pc x :
+  is_inner p = true -> get (board s) p = Full pc -> pcolor pc = to_move s ->
+  In x (generate_moves_for_piece zt pc s p AllMoves) -> In x (generate_moves zt s AllMoves).
+Proof.
+  intros Hp G PC Hx. unfold generate_moves. apply in_or_app. left. apply in_flat_map. exists p.
+  split; [now apply inner_in_points|]. rewrite G, PC, color_eqb_refl. exact Hx.
+Qed.
+
+Lemma get_of_pget_abs s q pc : on8 q = true -> pget (abs_placement (board s)) q = Some pc -> get (board s) (pt_of_sq q) = Full pc.
+Proof.
+  intros On P. rewrite (pget_abs_on _ _ On) in P. destruct (get (board s) (pt_of_sq q)) as [|x|]; cbn in P; try discriminate. congruence.
+Qed.
+
+(* an ordinary (non-promoting) target that passes the legality test yields its successor *)
+Lemma ordinary_generated s pc sq mov :
+  pos_ok s AllMoves -> is_inner sq = true -> get (board s) sq = Full pc -> pcolor pc = to_move s ->
+  In mov (get_moves pc sq (board s) AllMoves) ->
+  in_check (pos_pl (apply (abs s) (mkMove (sq_of_pt sq) (sq_of_pt mov) None))) (pcolor pc) = false ->
+  (pkind pc = Pawn -> snd (sq_of_pt mov) <> last_rank (pcolor pc)) ->
+  exists x, In x (successors_of_move zt s pc sq mov) /\ desc x = Some (mkMove (sq_of_pt sq) (sq_of_pt mov) None).
+Proof.
+  intros PO Hs G PC Hmov Chk NoPromo.
+  destruct (ordinary_hyps_of_pos_ok s AllMoves pc sq mov PO Hs G PC Hmov) as [OH Prow].
+  rewrite (ordinary_check_agrees zt s pc sq mov OH) in Chk.
+  assert (MB : moved_board zt s pc sq mov = Some (moved_pre zt s pc sq mov)) by (apply moved_board_some; auto).
+  destruct (moved_board_fields zt _ _ _ _ _ MB) as [ML MP].
+  destruct (finalise_fields zt (moved_pre zt s pc sq mov) pc sq mov) as [FL FP]. rewrite ML in FL. rewrite MP in FP.
+  exists (finalise zt (moved_pre zt s pc sq mov) pc sq mov). split; [|now apply desc_of].
+  unfold successors_of_move. rewrite MB.
+  assert (P1 : (fst mov =? BOARD_START) && color_eqb (pcolor pc) White && is_pawn_kind (pkind pc) = false).
+  { destruct (pkind pc) eqn:PK; cbn [is_pawn_kind]; rewrite ?andb_false_r; try reflexivity. rewrite andb_true_r.
+    specialize (NoPromo eq_refl). destruct (pcolor pc); cbn [color_eqb last_rank] in *; rewrite ?andb_false_r, ?andb_true_r; try reflexivity.
+    apply Z.eqb_neq. unfold sq_of_pt, BOARD_START, BOARD_END in *. cbn [fst snd] in *. lia. }
+  assert (P2 : (fst mov =? BOARD_END - 1) && color_eqb (pcolor pc) Black && is_pawn_kind (pkind pc) = false).
+  { destruct (pkind pc) eqn:PK; cbn [is_pawn_kind]; rewrite ?andb_false_r; try reflexivity. rewrite andb_true_r.
+    specialize (NoPromo eq_refl). destruct (pcolor pc); cbn [color_eqb last_rank] in *; rewrite ?andb_false_r, ?andb_true_r; try reflexivity.
+    apply Z.eqb_neq. unfold sq_of_pt, BOARD_START, BOARD_END in *. cbn [fst snd] in *. lia. }
+  rewrite P1, P2. left. reflexivity.
+Qed.
+
+(* a promoting target that passes the legality test yields the successor for every promotion piece *)
+Lemma promotion_generated s pc sq mov k :
+  pos_ok s AllMoves -> is_inner sq = true -> get (board s) sq = Full pc -> pcolor pc = to_move s ->
+  In mov (get_moves pc sq (board s) AllMoves) -> pkind pc = Pawn ->
+  snd (sq_of_pt mov) = last_rank (pcolor pc) -> In k PROMOTION_KINDS ->
+  in_check (pos_pl (apply (abs s) (mkMove (sq_of_pt sq) (sq_of_pt mov) (Some k)))) (pcolor pc) = false ->
+  exists x, In x (successors_of_move zt s pc sq mov) /\ desc x = Some (mkMove (sq_of_pt sq) (sq_of_pt mov) (Some k)).
+Proof.
+  intros PO Hs G PC Hmov PK LR Hk Chk.
+  destruct (ordinary_hyps_of_pos_ok s AllMoves pc sq mov PO Hs G PC Hmov) as [OH Prow].
+  assert (Last : fst mov = BOARD_START \/ fst mov = BOARD_END - 1).
+  { unfold sq_of_pt, BOARD_START, BOARD_END in *. cbn [fst snd] in LR. destruct (pcolor pc); cbn [last_rank] in LR; lia. }
+  rewrite (promotion_check_agrees zt s pc sq mov k OH PK (Prow PK Last) Hk) in Chk.
+  assert (MB : moved_board zt s pc sq mov = Some (moved_pre zt s pc sq mov)) by (apply moved_board_some; auto).
+  set (fin := finalise zt (moved_pre zt s pc sq mov) pc sq mov).
+  assert (Hx : exists x, In x (promote_pawn zt fin (pcolor pc) sq mov) /\ last_move x = Some (sq, mov) /\
+                         pawn_promotion x = Some (mkPiece (pcolor pc) k)).
+  { eexists. split; [unfold promote_pawn; apply in_map; exact Hk|]. split; reflexivity. }
+  destruct Hx as (x & Hin & HL & HP). exists x. split; [|unfold desc; now rewrite HL, HP].
+  unfold successors_of_move. rewrite MB. fold fin. rewrite PK. cbn [is_pawn_kind]. rewrite !andb_true_r.
+  unfold sq_of_pt, BOARD_START, BOARD_END in *. cbn [fst snd] in LR.
+  destruct (pcolor pc) eqn:Col; cbn [last_rank color_eqb] in *; rewrite ?andb_true_r, ?andb_false_r.
+  - assert (E : fst mov = 2) by lia. rewrite E. cbn. exact Hin.
+  - assert (E : fst mov = 9) by lia. rewrite E. cbn. exact Hin.
+Qed.
+
+Lemma piece_complete s q mv :
+  pos_ok1 s -> on8 q = true -> In mv (piece_moves_spec (abs s) q) ->
+  in_check (pos_pl (apply (abs s) mv)) (pos_stm (abs s)) = false ->
+  exists x, In x (generate_moves zt s AllMoves) /\ desc x = Some mv.
+Proof.
+  intros [PO ER] On Hmv Chk. assert (PO' := PO). destruct PO' as (OK & KO & RH & EP & NK).
+  assert (Hm0 := Hmv). unfold piece_moves_spec in Hm0. rewrite pl_abs in Hm0.
+  destruct (pget (abs_placement (board s)) q) as [pc|] eqn:Pg; [|destruct Hm0].
+  rewrite stm_abs in Hm0. destruct (color_eqb_spec (pcolor pc) (to_move s)) as [PC|]; [|destruct Hm0]. clear Hm0.
+  pose proof (get_of_pget_abs s q pc On Pg) as G.
+  pose proof (proj1 (on8_inner q) On) as Hp.
+  rewrite stm_abs, <- PC in Chk.
+  destruct (kind_eqb_spec (pkind pc) Pawn) as [PK|NPK].
+  - (* pawns *)
+    assert (Mover : pget (pos_pl (abs s)) q = Some pc) by exact Pg.
+    assert (Stm : pcolor pc = pos_stm (abs s)) by (now rewrite stm_abs).
+    rewrite (piece_moves_spec_pawn _ _ pc Mover Stm PK) in Hmv.
+    destruct (pt_of_sq q) as [row col] eqn:Ep.
+    assert (Eq : q = sq_of_pt (row, col)) by (rewrite <- Ep; symmetry; apply sq_pt). rewrite Eq in Hmv.
+    destruct (is_ep_capture (abs s) mv) eqn:IsEp.
+    + (* en passant *)
+      destruct (pawn_ep_shape (board s) (abs s) pc row col eq_refl mv Hmv IsEp) as (df & Hdf & -> & Epos).
+      cbn [abs pos_ep] in Epos. destruct (pawn_double_move s) as [dm|] eqn:D; [|discriminate].
+      assert (Edm : sq_of_pt dm = (fst (sq_of_pt (row, col)) + df, snd (sq_of_pt (row, col)) + forward (pcolor pc))) by congruence.
+      assert (Tdm : dm = (row + mfw (pcolor pc), col + df)).
+      { rewrite <- (pt_sq dm), Edm. replace (row + mfw (pcolor pc)) with (row + 1 * mfw (pcolor pc)) by ring.
+        rewrite <- (pt_sq (row + 1 * mfw (pcolor pc), col + df)). f_equal. rewrite sq_of_pt_pawn. f_equal. ring. }
+      assert (E : pawn_moves_en_passant pc (row, col) s = Some dm).
+      { apply ep_geometry. split; [exact D|]. split.
+        - specialize (ER dm D). rewrite Tdm in ER. cbn [fst] in ER. rewrite <- PC in ER.
+          destruct (pcolor pc); cbn [mfw ep_row] in *; unfold EP_ROW_WHITE, EP_ROW_BLACK; lia.
+        - rewrite Tdm. destruct Hdf as [-> | ->]; [left|right]; f_equal; ring. }
+      rewrite <- Edm in Chk. rewrite PC in Chk.
+      rewrite (ep_check_agrees zt s pc (row, col) dm dm OK KO EP G Hp PC D PK E) in Chk.
+      destruct (ep_pre_abs zt s pc (row, col) dm dm OK EP G Hp PC D PK E) as (_ & HL & HP & _).
+      exists (ep_pre zt s pc (row, col) dm). split.
+      * apply (piece_in_generate s (row, col) pc); auto. unfold generate_moves_for_piece. apply in_or_app. right.
+        rewrite en_passant_successor_pre, D, PK, E, Chk. left. reflexivity.
+      * rewrite <- Edm. now apply desc_of.
+    + (* pushes, captures, promotions *)
+      destruct (pawn_complete (board s) OK (abs s) pc row col eq_refl PK Hp G mv Hmv IsEp) as (Hfrom & Ont & Hmov & Hpr).
+      destruct mv as [from to pr]. cbn [mfrom mto mpromo] in *. subst from.
+      set (mov := pt_of_sq to) in *. assert (Eto : to = sq_of_pt mov) by (unfold mov; symmetry; apply sq_pt).
+      assert (Hmov' : In mov (get_moves pc (row, col) (board s) AllMoves)) by (unfold get_moves; now rewrite PK).
+      rewrite Eto in Chk, Hpr |- *. unfold promo_ok in Hpr.
+      destruct (Z.eqb_spec (snd (sq_of_pt mov)) (last_rank (pcolor pc))) as [LR|NLR].
+      * destruct Hpr as (k & -> & Hk). apply promotion_kinds_spec in Hk.
+        destruct (promotion_generated s pc (row, col) mov k PO Hp G PC Hmov' PK LR Hk Chk) as (x & Hx & Hd).
+        exists x. split; [|exact Hd]. apply (piece_in_generate s (row, col) pc); auto.
+        unfold generate_moves_for_piece. apply in_or_app. left. apply in_flat_map. exists mov. auto.
+      * subst pr.
+        destruct (ordinary_generated s pc (row, col) mov PO Hp G PC Hmov' Chk (fun _ => NLR)) as (x & Hx & Hd).
+        exists x. split; [|exact Hd]. apply (piece_in_generate s (row, col) pc); auto.
+        unfold generate_moves_for_piece. apply in_or_app. left. apply in_flat_map. exists mov. auto.
+  - (* every other piece *)
+    destruct (nonpawn_spec_shape (board s) (abs s) q pc mv Pg eq_refl NPK Hmv) as (Hfrom & Hpr & Ont).
+    destruct mv as [from to pr]. cbn [mfrom mto mpromo] in *. subst from pr.
+    set (p := pt_of_sq q) in *. set (mov := pt_of_sq to).
+    assert (Eq : q = sq_of_pt p) by (unfold p; symmetry; apply sq_pt).
+    assert (Eto : to = sq_of_pt mov) by (unfold mov; symmetry; apply sq_pt).
+    rewrite Eq, Eto in Hmv, Chk |- *.
+    assert (Hmov : In mov (get_moves pc p (board s) AllMoves)).
+    { apply (nonpawn_agree (board s) OK (abs s) pc p mov eq_refl); auto. }
+    destruct (ordinary_generated s pc p mov PO Hp G PC Hmov Chk ltac:(intros; contradiction)) as (x & Hx & Hd).
+    exists x. split; [|exact Hd]. apply (piece_in_generate s p pc); auto.
+    unfold generate_moves_for_piece. apply in_or_app. left. apply in_flat_map. exists mov. auto.
+Qed.
+
+Lemma spec_safe_rev s c f r :
+  cells_ok (board s) -> kings_ok s -> on8 (f, r) = true -> get (board s) (pt_of_sq (f, r)) <> Full (mkPiece (opposite c) King) ->
+  attacked (abs_placement (board s)) (opposite c) (f, r) = false -> is_check_cords s c (pt_of_sq (f, r)) = false.
+Proof.
+  intros OK KO On NK H. destruct (KO (opposite c)) as [GK UK].
+  transitivity (attacked (abs_placement (board s)) (opposite c) (sq_of_pt (pt_of_sq (f, r)))); [|now rewrite sq_pt].
+  apply is_check_cords_correct; auto; [now apply on8_inner|]. intros E. apply NK. now rewrite <- E.
+Qed.
+
+Lemma castle_complete s mv :
+  pos_ok s AllMoves -> In mv (castle_moves_spec (abs s)) -> exists x, In x (generate_moves zt s AllMoves) /\ desc x = Some mv.
+Proof.
+  intros (OK & KO & RH & EP & NK) H. unfold castle_moves_spec in H. rewrite stm_abs in H.
+  destruct (to_move s) eqn:TM; cbn [abs has_right home_rank pos_pl pos_wk pos_wq pos_bk pos_bq] in H; apply in_app_or in H; destruct H as [H|H].
+    + (* WKS *)
+      match type of H with In mv (if ?c then _ else _) => destruct c eqn:Cond; [|destruct H] end. destruct H as [<-|[]].
+      apply andb_true_iff in Cond; destruct Cond as [Cond A6]. apply andb_true_iff in Cond; destruct Cond as [Cond A5]. apply andb_true_iff in Cond; destruct Cond as [Cond A4]. apply andb_true_iff in Cond; destruct Cond as [Cond O8]. apply andb_true_iff in Cond; destruct Cond as [Cond O7]. apply andb_true_iff in Cond; destruct Cond as [Cond RK]. apply andb_true_iff in Cond; destruct Cond as [Cond KH]. rename Cond into R.
+      apply negb_true_iff in O7. apply (occupied_abs (board s) OK (5, 0) eq_refl) in O7. change (pt_of_sq (5, 0)) with (9, 7) in O7.
+      apply negb_true_iff in O8. apply (occupied_abs (board s) OK (6, 0) eq_refl) in O8. change (pt_of_sq (6, 0)) with (9, 8) in O8.
+      apply negb_true_iff in A4.
+      apply negb_true_iff in A5.
+      apply negb_true_iff in A6.
+      destruct (rights_home_r s WKS RH R) as [GK GR]. pose proof (king_at_home s WKS KO RH R) as KL. cbn [right_color king_home rook_home] in *.
+      assert (C0 : is_check s White = false).
+      { unfold is_check. rewrite KL. apply (spec_safe_rev s White 4 0 OK KO eq_refl); [change (pt_of_sq (4, 0)) with (9, 6); rewrite GK; discriminate|exact A4]. }
+      assert (C7 : is_check_cords s White (9, 7) = false).
+      { apply (spec_safe_rev s White 5 0 OK KO eq_refl); [change (pt_of_sq (5, 0)) with (9, 7); rewrite O7; discriminate|exact A5]. }
+      assert (C8 : is_check_cords s White (9, 8) = false).
+      { apply (spec_safe_rev s White 6 0 OK KO eq_refl); [change (pt_of_sq (6, 0)) with (9, 8); rewrite O8; discriminate|exact A6]. }
+      assert (CC : can_castle_white_king_side s = true).
+      { unfold can_castle_white_king_side, e, BOARD_START, BOARD_END.
+        change (10 - 1) with 9; change (10 - 2) with 8; change (10 - 3) with 7; change (2 + 1) with 3; change (2 + 2) with 4; change (2 + 3) with 5.
+        rewrite R, C0, O7, O8, C7, C8. reflexivity. }
+      eexists. split.
+      * unfold generate_moves. apply in_or_app. right. cbn [mode_all]. unfold generate_castling_moves. rewrite TM. cbn [color_eqb andb can_castle]. rewrite CC.
+        apply in_or_app; left. left. reflexivity.
+      * apply (desc_of _ (9, 6) (9, 8)); apply (castle_successor_desc zt).
+    + (* WQS *)
+      match type of H with In mv (if ?c then _ else _) => destruct c eqn:Cond; [|destruct H] end. destruct H as [<-|[]].
+      apply andb_true_iff in Cond; destruct Cond as [Cond A2]. apply andb_true_iff in Cond; destruct Cond as [Cond A3]. apply andb_true_iff in Cond; destruct Cond as [Cond A4]. apply andb_true_iff in Cond; destruct Cond as [Cond O5]. apply andb_true_iff in Cond; destruct Cond as [Cond O4]. apply andb_true_iff in Cond; destruct Cond as [Cond O3]. apply andb_true_iff in Cond; destruct Cond as [Cond RK]. apply andb_true_iff in Cond; destruct Cond as [Cond KH]. rename Cond into R.
+      apply negb_true_iff in O3. apply (occupied_abs (board s) OK (1, 0) eq_refl) in O3. change (pt_of_sq (1, 0)) with (9, 3) in O3.
+      apply negb_true_iff in O4. apply (occupied_abs (board s) OK (2, 0) eq_refl) in O4. change (pt_of_sq (2, 0)) with (9, 4) in O4.
+      apply negb_true_iff in O5. apply (occupied_abs (board s) OK (3, 0) eq_refl) in O5. change (pt_of_sq (3, 0)) with (9, 5) in O5.
+      apply negb_true_iff in A4.
+      apply negb_true_iff in A3.
+      apply negb_true_iff in A2.
+      destruct (rights_home_r s WQS RH R) as [GK GR]. pose proof (king_at_home s WQS KO RH R) as KL. cbn [right_color king_home rook_home] in *.
+      assert (C0 : is_check s White = false).
+      { unfold is_check. rewrite KL. apply (spec_safe_rev s White 4 0 OK KO eq_refl); [change (pt_of_sq (4, 0)) with (9, 6); rewrite GK; discriminate|exact A4]. }
+      assert (C5 : is_check_cords s White (9, 5) = false).
+      { apply (spec_safe_rev s White 3 0 OK KO eq_refl); [change (pt_of_sq (3, 0)) with (9, 5); rewrite O5; discriminate|exact A3]. }
+      assert (C4 : is_check_cords s White (9, 4) = false).
+      { apply (spec_safe_rev s White 2 0 OK KO eq_refl); [change (pt_of_sq (2, 0)) with (9, 4); rewrite O4; discriminate|exact A2]. }
+      assert (CC : can_castle_white_queen_side s = true).
+      { unfold can_castle_white_queen_side, e, BOARD_START, BOARD_END.
+        change (10 - 1) with 9; change (10 - 2) with 8; change (10 - 3) with 7; change (2 + 1) with 3; change (2 + 2) with 4; change (2 + 3) with 5.
+        rewrite R, C0, O3, O4, O5, C5, C4. reflexivity. }
+      eexists. split.
+      * unfold generate_moves. apply in_or_app. right. cbn [mode_all]. unfold generate_castling_moves. rewrite TM. cbn [color_eqb andb can_castle]. rewrite CC.
+        apply in_or_app; right. apply in_or_app; left. left. reflexivity.
+      * apply (desc_of _ (9, 6) (9, 4)); apply (castle_successor_desc zt).
+    + (* BKS *)
+      match type of H with In mv (if ?c then _ else _) => destruct c eqn:Cond; [|destruct H] end. destruct H as [<-|[]].
+      apply andb_true_iff in Cond; destruct Cond as [Cond A6]. apply andb_true_iff in Cond; destruct Cond as [Cond A5]. apply andb_true_iff in Cond; destruct Cond as [Cond A4]. apply andb_true_iff in Cond; destruct Cond as [Cond O8]. apply andb_true_iff in Cond; destruct Cond as [Cond O7]. apply andb_true_iff in Cond; destruct Cond as [Cond RK]. apply andb_true_iff in Cond; destruct Cond as [Cond KH]. rename Cond into R.
+      apply negb_true_iff in O7. apply (occupied_abs (board s) OK (5, 7) eq_refl) in O7. change (pt_of_sq (5, 7)) with (2, 7) in O7.
+      apply negb_true_iff in O8. apply (occupied_abs (board s) OK (6, 7) eq_refl) in O8. change (pt_of_sq (6, 7)) with (2, 8) in O8.
+      apply negb_true_iff in A4.
+      apply negb_true_iff in A5.
+      apply negb_true_iff in A6.
+      destruct (rights_home_r s BKS RH R) as [GK GR]. pose proof (king_at_home s BKS KO RH R) as KL. cbn [right_color king_home rook_home] in *.
+      assert (C0 : is_check s Black = false).
+      { unfold is_check. rewrite KL. apply (spec_safe_rev s Black 4 7 OK KO eq_refl); [change (pt_of_sq (4, 7)) with (2, 6); rewrite GK; discriminate|exact A4]. }
+      assert (C7 : is_check_cords s Black (2, 7) = false).
+      { apply (spec_safe_rev s Black 5 7 OK KO eq_refl); [change (pt_of_sq (5, 7)) with (2, 7); rewrite O7; discriminate|exact A5]. }
+      assert (C8 : is_check_cords s Black (2, 8) = false).
+      { apply (spec_safe_rev s Black 6 7 OK KO eq_refl); [change (pt_of_sq (6, 7)) with (2, 8); rewrite O8; discriminate|exact A6]. }
+      assert (CC : can_castle_black_king_side s = true).
+      { unfold can_castle_black_king_side, e, BOARD_START, BOARD_END.
+        change (10 - 1) with 9; change (10 - 2) with 8; change (10 - 3) with 7; change (2 + 1) with 3; change (2 + 2) with 4; change (2 + 3) with 5.
+        rewrite R, C0, O7, O8, C7, C8. reflexivity. }
+      eexists. split.
+      * unfold generate_moves. apply in_or_app. right. cbn [mode_all]. unfold generate_castling_moves. rewrite TM. cbn [color_eqb andb can_castle]. rewrite CC.
+        apply in_or_app; right. apply in_or_app; right. apply in_or_app; left. left. reflexivity.
+      * apply (desc_of _ (2, 6) (2, 8)); apply (castle_successor_desc zt).
+    + (* BQS *)
+      match type of H with In mv (if ?c then _ else _) => destruct c eqn:Cond; [|destruct H] end. destruct H as [<-|[]].
+      apply andb_true_iff in Cond; destruct Cond as [Cond A2]. apply andb_true_iff in Cond; destruct Cond as [Cond A3]. apply andb_true_iff in Cond; destruct Cond as [Cond A4]. apply andb_true_iff in Cond; destruct Cond as [Cond O5]. apply andb_true_iff in Cond; destruct Cond as [Cond O4]. apply andb_true_iff in Cond; destruct Cond as [Cond O3]. apply andb_true_iff in Cond; destruct Cond as [Cond RK]. apply andb_true_iff in Cond; destruct Cond as [Cond KH]. rename Cond into R.
+      apply negb_true_iff in O3. apply (occupied_abs (board s) OK (1, 7) eq_refl) in O3. change (pt_of_sq (1, 7)) with (2, 3) in O3.
+      apply negb_true_iff in O4. apply (occupied_abs (board s) OK (2, 7) eq_refl) in O4. change (pt_of_sq (2, 7)) with (2, 4) in O4.
+      apply negb_true_iff in O5. apply (occupied_abs (board s) OK (3, 7) eq_refl) in O5. change (pt_of_sq (3, 7)) with (2, 5) in O5.
+      apply negb_true_iff in A4.
+      apply negb_true_iff in A3.
+      apply negb_true_iff in A2.
+      destruct (rights_home_r s BQS RH R) as [GK GR]. pose proof (king_at_home s BQS KO RH R) as KL. cbn [right_color king_home rook_home] in *.
+      assert (C0 : is_check s Black = false).
+      { unfold is_check. rewrite KL. apply (spec_safe_rev s Black 4 7 OK KO eq_refl); [change (pt_of_sq (4, 7)) with (2, 6); rewrite GK; discriminate|exact A4]. }
+      assert (C5 : is_check_cords s Black (2, 5) = false).
+      { apply (spec_safe_rev s Black 3 7 OK KO eq_refl); [change (pt_of_sq (3, 7)) with (2, 5); rewrite O5; discriminate|exact A3]. }
+      assert (C4 : is_check_cords s Black (2, 4) = false).
+      { apply (spec_safe_rev s Black 2 7 OK KO eq_refl); [change (pt_of_sq (2, 7)) with (2, 4); rewrite O4; discriminate|exact A2]. }
+      assert (CC : can_castle_black_queen_side s = true).
+      { unfold can_castle_black_queen_side, e, BOARD_START, BOARD_END.
+        change (10 - 1) with 9; change (10 - 2) with 8; change (10 - 3) with 7; change (2 + 1) with 3; change (2 + 2) with 4; change (2 + 3) with 5.
+        rewrite R, C0, O3, O4, O5, C5, C4. reflexivity. }
+      eexists. split.
+      * unfold generate_moves. apply in_or_app. right. cbn [mode_all]. unfold generate_castling_moves. rewrite TM. cbn [color_eqb andb can_castle]. rewrite CC.
+        apply in_or_app; right. apply in_or_app; right. apply in_or_app; right. left. reflexivity.
+      * apply (desc_of _ (2, 6) (2, 4)); apply (castle_successor_desc zt).
+Qed.
+
+Theorem legal_moves_are_generated s mv :
+  pos_ok1 s -> In mv (legal_moves (abs s)) -> exists x, In x (generate_moves zt s AllMoves) /\ desc x = Some mv.
+Proof.
+  intros PO H. apply legal_moves_in in H. destruct H as [Hps Chk].
+  unfold pseudo_moves in Hps. apply in_app_or in Hps. destruct Hps as [Hps|Hps].
+  - apply in_flat_map in Hps. destruct Hps as [q [Hq Hmv]]. apply in_all_sq_on8 in Hq.
+    now apply (piece_complete s q mv).
+  - destruct PO as [PO _]. now apply castle_complete.
+Qed.
+
 End S.
